@@ -104,7 +104,12 @@ pub fn other_address(cx: &Cx, taken: &[Address]) -> Address {
     // sometimes a near miss: same low byte or same high byte as a taken address
     let mut a = if !taken.is_empty() && cx.chance(1, 4) {
         let b = *cx.pick(taken);
-        if cx.chance(1, 2) { Address(b.0 ^ 0x0100) } else { Address(b.0 ^ 0x0001) }
+        match cx.draw(3) {
+            0 => Address(b.0 ^ 0x0100),
+            1 => Address(b.0 ^ 0x0001),
+            // the same two bytes the other way round
+            _ => Address(b.0.swap_bytes()),
+        }
     } else {
         address(cx)
     };
